@@ -23,6 +23,7 @@ import doubles
 import models
 
 TWO_PI = 2 * np.pi
+DEFAULT_N_POINTS = 180  # documented public default of IFORMContour / ISORMContour ("Defaults to 180")
 
 
 def contour_classes():
@@ -31,7 +32,20 @@ def contour_classes():
     return {"iform": IFORMContour, "isorm": ISORMContour}
 
 
+_SPHERE_CACHE = {}
+
+
 def unit_sphere(n_dim, n_points):
+    """unit directions the code uses (input of the model for n_dim >= 3; NSphere is seeded, hence cached)"""
+    key = (n_dim, n_points)
+    if key not in _SPHERE_CACHE:
+        if len(_SPHERE_CACHE) > 64:
+            _SPHERE_CACHE.clear()
+        _SPHERE_CACHE[key] = _unit_sphere(n_dim, n_points)
+    return _SPHERE_CACHE[key]
+
+
+def _unit_sphere(n_dim, n_points):
     if n_dim == 2:
         phi = np.linspace(0, 2 * np.pi, num=n_points, endpoint=False)
         return np.stack((np.cos(phi), np.sin(phi)), axis=1), phi
@@ -46,13 +60,57 @@ def beta_of(kind, alpha, n_dim):
     return float(np.sqrt(sts.chi2.ppf(1 - alpha, n_dim)))
 
 
+def alpha_object(case):
+    """the object handed to the contour as `alpha`: a Python float, a numpy scalar, or whatever the library's
+    own `calculate_alpha(state_duration, return_period)` returns"""
+    form = case.get("alpha_form")
+    if form == "np.float64":
+        return np.float64(case["alpha"])
+    if form == "calculate_alpha":
+        from virocon import calculate_alpha
+
+        return calculate_alpha(*case["alpha_args"])
+    return case["alpha"]
+
+
+def n_points_of(case):
+    return DEFAULT_N_POINTS if case["n_points"] is None else case["n_points"]
+
+
 def run_impl(kind, model, alpha, n_points):
+    """n_points None => the argument is omitted (public default)"""
     cls = contour_classes()[kind]
+    kw = {} if n_points is None else {"n_points": n_points}
     with warnings.catch_warnings():
         warnings.simplefilter("ignore")
-        c = cls(model, alpha, n_points=n_points)
+        with np.errstate(all="ignore"):
+            c = cls(model, alpha, **kw)
     return {"beta": float(c.beta), "sphere": np.array(c.sphere_points, dtype=float),
             "coords": np.array(c.coordinates, dtype=float)}
+
+
+def reference_chain(desc, fam, Phi):
+    """the inverse-Rosenblatt chain recomputed without any virocon plumbing: doubles by the RatDist formula at
+    independently evaluated dependence values, families by constructed leaves (scalar calls)"""
+    n_points, n_dim = Phi.shape
+    x = np.full((n_points, n_dim), np.nan)
+    with np.errstate(all="ignore"), warnings.catch_warnings():
+        warnings.simplefilter("ignore")
+        for i in range(n_dim):
+            ci = desc.cond[i]
+            for j in range(n_points):
+                g = None if ci is None else float(x[j, ci])
+                try:
+                    if fam is not None:
+                        v = float(fam.leaf(i, g).icdf(Phi[j, i]))
+                    else:
+                        s_, l_ = desc.s[i].value(0.0 if g is None else g), desc.l[i].value(0.0 if g is None else g)
+                        p = float(Phi[j, i])
+                        v = l_ + s_ * p / (1 - p)
+                except (ValueError, ZeroDivisionError, OverflowError, FloatingPointError):
+                    v = float("nan")
+                x[j, i] = v
+    return x
 
 
 def model_lines(kind, desc, alpha, n_points, fam=None):
@@ -72,15 +130,12 @@ def model_lines(kind, desc, alpha, n_points, fam=None):
             lines.append(f"TABLE sin {f2b(a)} {f2b(s)}")
     if fam is not None:
         # reference chain with independent, constructed leaves (scalar calls)
-        x = np.full((n_points, n_dim), np.nan)
+        x = reference_chain(desc, fam, Phi)
         for i in range(n_dim):
             ci = fam.cond[i]
             for j in range(n_points):
                 g = None if ci is None else float(x[j, ci])
-                with np.errstate(all="ignore"):
-                    v = float(fam.leaf(i, g).icdf(Phi[j, i]))
-                x[j, i] = v
-                lines.append(models.table_line("Q", i, Phi[j, i], g, v))
+                lines.append(models.table_line("Q", i, Phi[j, i], g, x[j, i]))
     toks = desc.tokens()
     if n_dim == 2:
         lines.append(" ".join(["RUN", "iform2", kind] + toks + [str(f2b(oma)), str(f2b(TWO_PI)), str(n_points)]))
@@ -131,6 +186,7 @@ def compare(impl, mod, exact, rtol=1e-11):
 
 def oracle(kind, model, alpha, n_points, impl):
     """property clauses on the implementation's own output"""
+    alpha = float(alpha)
     bad = []
     n_dim = model.n_dim
     C, S, beta = impl["coords"], impl["sphere"], impl["beta"]
@@ -180,6 +236,14 @@ def oracle(kind, model, alpha, n_points, impl):
     rs = np.sqrt((S * S).sum(axis=1))
     if not np.all(np.abs(rs - beta) <= 1e-9 * max(1.0, beta)):
         bad.append(("sphere_radius", f"max dev {np.max(np.abs(rs - beta))!r}"))
+    if beta == 0.0:
+        # IFORM at alpha = 0.5: the sphere degenerates to the origin, "directions" do not exist; radius, back-map
+        # and the first-variable clause are still checked
+        if n_dim == 2 and kind == "iform":
+            q = float(np.asarray(model.distributions[0].icdf(1 - alpha)))
+            if not np.all(np.abs(C[:, 0] - q) <= 1e-6 * max(1.0, abs(q))):
+                bad.append(("max_first_variable_is_marginal_quantile", f"beta=0: x0={C[:, 0].tolist()[:4]} median={q!r}"))
+        return bad, n_hyp
     if n_dim == 2:
         ang = np.mod(np.arctan2(S[:, 1], S[:, 0]), 2 * np.pi)
         want_ang = 2 * np.pi * np.arange(n_points) / n_points
@@ -205,6 +269,176 @@ def sig(kind, pred):
     return {"entry": {"iform": "IFORMContour", "isorm": "ISORMContour"}[kind], "predicate": pred}
 
 
+# --------------------------------------------------------------------------- extended families
+# Every family the library ships (virocon.distributions), including the real-line ones (Normal, VonMises, a
+# ScipyDistribution subclass without shape parameter), LogNormalNormFit, a ScipyDistribution subclass with a shape
+# parameter, and a 3-parameter Weibull whose location gamma depends on the conditioning variable.  The independent
+# leaf is a frozen scipy distribution built from independently evaluated dependence values (no virocon class).
+
+XFAMILIES = {
+    "Normal": ["mu", "sigma"],
+    "VonMises": ["kappa", "mu"],
+    "LogNormalNormFit": ["mu_norm", "sigma_norm"],
+    "ScipyGumbel": ["loc", "scale"],
+    "ScipyWeibullMin": ["c", "loc", "scale"],
+    "Weibull": ["alpha", "beta", "gamma"],
+    "LogNormal": ["mu", "sigma"],
+}
+X_REAL_LINE = ("Normal", "VonMises", "ScipyGumbel")
+X_LOCATION = {("Normal", "mu"), ("VonMises", "mu"), ("ScipyGumbel", "loc"), ("LogNormal", "mu")}
+_XCLS = {}
+
+
+def xclass(family):
+    if not _XCLS:
+        import virocon
+        import virocon.distributions as vd
+
+        class ScipyGumbel(virocon.ScipyDistribution):
+            scipy_dist_name = "gumbel_r"
+
+        class ScipyWeibullMin(virocon.ScipyDistribution):
+            scipy_dist_name = "weibull_min"
+
+        _XCLS.update({"Normal": virocon.NormalDistribution, "VonMises": virocon.VonMisesDistribution,
+                      "LogNormalNormFit": getattr(vd, "LogNormalNormFitDistribution", None),
+                      "ScipyGumbel": ScipyGumbel, "ScipyWeibullMin": ScipyWeibullMin,
+                      "Weibull": virocon.WeibullDistribution, "LogNormal": virocon.LogNormalDistribution})
+    return _XCLS[family]
+
+
+class _Frozen:
+    def __init__(self, d):
+        self.d = d
+
+    def icdf(self, p):
+        return self.d.ppf(p)
+
+    def cdf(self, x):
+        return self.d.cdf(x)
+
+
+def x_frozen(family, v):
+    if family == "Normal":
+        return sts.norm(loc=v["mu"], scale=v["sigma"])
+    if family == "VonMises":
+        return sts.vonmises(v["kappa"], loc=v["mu"])
+    if family == "LogNormalNormFit":
+        m, sd = v["mu_norm"], v["sigma_norm"]
+        sigma = math.sqrt(math.log(1 + sd * sd / (m * m)))
+        mu = math.log(m / math.sqrt(1 + sd * sd / (m * m)))
+        return sts.lognorm(sigma, loc=0, scale=math.exp(mu))
+    if family == "ScipyGumbel":
+        return sts.gumbel_r(loc=v["loc"], scale=v["scale"])
+    if family == "ScipyWeibullMin":
+        return sts.weibull_min(v["c"], loc=v["loc"], scale=v["scale"])
+    if family == "Weibull":
+        return sts.weibull_min(v["beta"], loc=v["gamma"], scale=v["alpha"])
+    if family == "LogNormal":
+        return sts.lognorm(v["sigma"], loc=0, scale=math.exp(v["mu"]))
+    raise KeyError(family)
+
+
+class FamModelX(models.FamModel):
+    def build(self):
+        from virocon import DependenceFunction, GlobalHierarchicalModel
+
+        descs = []
+        for d in self.dims:
+            cls = xclass(d["family"])
+            if d["cond"] is None:
+                descs.append({"distribution": cls(**{k: v[1] for k, v in d["params"].items()})})
+            else:
+                kw, pars = {}, {}
+                for name, spec in d["params"].items():
+                    if spec[0] == "fixed":
+                        kw["f_" + name] = spec[1]
+                    else:
+                        df = DependenceFunction(models.DEP_FUNCS[spec[1]])
+                        df.parameters = dict(zip(df.parameters.keys(), spec[2]))
+                        pars[name] = df
+                descs.append({"distribution": cls(**kw), "conditional_on": d["cond"], "parameters": pars})
+        return GlobalHierarchicalModel(descs)
+
+    def leaf(self, i, g=None):
+        return _Frozen(x_frozen(self.dims[i]["family"], self.param_values(i, g)))
+
+    def describe(self):
+        return {"dims": self.dims, "x": True}
+
+
+def x_base_value(rng, fam, par):
+    u = rng.uniform
+    table = {
+        ("Normal", "mu"): lambda: u(-1.0, 2.0), ("Normal", "sigma"): lambda: u(0.4, 1.5),
+        ("VonMises", "kappa"): lambda: u(0.5, 8.0), ("VonMises", "mu"): lambda: u(-1.0, 1.0),
+        ("LogNormalNormFit", "mu_norm"): lambda: u(1.0, 5.0), ("LogNormalNormFit", "sigma_norm"): lambda: u(0.3, 2.0),
+        ("ScipyGumbel", "loc"): lambda: u(-1.0, 3.0), ("ScipyGumbel", "scale"): lambda: u(0.3, 1.5),
+        ("ScipyWeibullMin", "c"): lambda: u(0.9, 3.0), ("ScipyWeibullMin", "loc"): lambda: float(rng.choice([0.0, 0.0, 0.5])),
+        ("ScipyWeibullMin", "scale"): lambda: 10 ** u(-0.3, 0.7),
+        ("Weibull", "alpha"): lambda: 10 ** u(-0.3, 0.7), ("Weibull", "beta"): lambda: u(0.9, 3.0),
+        ("Weibull", "gamma"): lambda: u(0.0, 1.0),
+        ("LogNormal", "mu"): lambda: u(-0.3, 1.5), ("LogNormal", "sigma"): lambda: u(0.15, 0.7),
+    }
+    return float(table[(fam, par)]())
+
+
+def random_fam_model_x(rng, n_dim, cond=None):
+    """random hierarchical model over XFAMILIES; dependence functions are chosen so that every parameter stays
+    admissible over the whole range of the conditioning variable (which may be negative)"""
+    if cond is None:
+        cond = doubles.random_structure(rng, n_dim)
+        if n_dim >= 2 and cond[1] is None and rng.integers(0, 2):
+            cond[1] = 0
+    fams = list(XFAMILIES)
+    if xclass("LogNormalNormFit") is None:
+        fams.remove("LogNormalNormFit")
+    dims, neg = [], []
+    for i in range(n_dim):
+        if i == 0 and rng.integers(0, 2):
+            fam = str(rng.choice(X_REAL_LINE))  # a conditioning variable that takes negative values
+        else:
+            fam = str(rng.choice(fams))
+        names = XFAMILIES[fam]
+        params = {}
+        if cond[i] is None:
+            for nme in names:
+                params[nme] = ("fixed", x_base_value(rng, fam, nme))
+        else:
+            parent_neg = neg[cond[i]]
+            n_dep = 0
+            order = list(names)
+            for nme in order:
+                level = x_base_value(rng, fam, nme)
+                want_dep = rng.integers(0, 3) > 0 or (n_dep == 0 and nme == order[-1])
+                if (fam, nme) == ("ScipyWeibullMin", "loc"):
+                    want_dep = False
+                if not want_dep:
+                    params[nme] = ("fixed", level)
+                    continue
+                n_dep += 1
+                if (fam, nme) in X_LOCATION:
+                    params[nme] = ("dep", "linear2", [level, float(rng.uniform(-0.25, 0.25))])
+                elif (fam, nme) == ("Weibull", "gamma"):
+                    # location of the 3-parameter Weibull follows the conditioning variable, stays >= 0
+                    if parent_neg:
+                        params[nme] = ("dep", "exp3", [level, float(rng.uniform(0.05, 0.4)), float(rng.uniform(0.01, 0.08))])
+                    else:
+                        params[nme] = ("dep", "linear2", [level, float(rng.uniform(0.01, 0.2))])
+                else:
+                    kinds = ["exp3", "logistics4"] if parent_neg else ["power3", "exp3", "asym3", "logistics4", "linear2"]
+                    kind = str(rng.choice(kinds))
+                    params[nme] = ("dep", kind, [float(v) for v in models.random_dep_pars(rng, kind, level)])
+            if n_dep == 0:  # ScipyWeibullMin with only `loc` left
+                nme = names[0]
+                level = x_base_value(rng, fam, nme)
+                kind = "exp3" if parent_neg else "asym3"
+                params[nme] = ("dep", kind, [float(v) for v in models.random_dep_pars(rng, kind, level)])
+        dims.append({"family": fam, "cond": cond[i], "params": params})
+        neg.append(fam in X_REAL_LINE)
+    return FamModelX(dims)
+
+
 def gen_cases(rng, n_cases, max_points, table_frac=0.35):
     for k in range(n_cases):
         kind = "iform" if rng.integers(0, 2) == 0 else "isorm"
@@ -213,7 +447,7 @@ def gen_cases(rng, n_cases, max_points, table_frac=0.35):
         n_dim = int(rng.choice([2, 2, 3, 4]))
         n_points = int(rng.integers(3, max_points + 1)) if n_dim == 2 else int(rng.integers(3, min(max_points, 24) + 1))
         if table:
-            m = models.random_fam_model(rng, n_dim=n_dim)
+            m = random_fam_model_x(rng, n_dim) if rng.integers(0, 2) else models.random_fam_model(rng, n_dim=n_dim)
             yield {"mode": "table", "kind": kind, "alpha": alpha, "n_points": n_points, "model": m.describe()}
         else:
             m = doubles.random_model(rng, n_dim=n_dim)
@@ -239,24 +473,78 @@ def npoints_sweep_cases(rng, hi):
                "model": m.describe(), "gen": "n_points-sweep"}
 
 
+def special_cases(rng, thorough):
+    """input classes the random draw never produces: alpha exactly at the ends of [1e-8, 0.5], alpha as a numpy
+    scalar / as the output of calculate_alpha, and n_points left at its public default (180) in 2-D, 3-D (and 4-D)"""
+    from virocon import calculate_alpha
+
+    def mk(n_dim, table):
+        if table:
+            return "table", random_fam_model_x(rng, n_dim) if rng.integers(0, 2) else models.random_fam_model(rng, n_dim=n_dim)
+        return "doubles", doubles.random_model(rng, n_dim=n_dim)
+
+    for kind in ("iform", "isorm"):
+        for alpha in (1e-8, 0.5):
+            for n_dim, n_points in ((2, 12), (3, 9)):
+                for table in (False, True):
+                    mode, m = mk(n_dim, table)
+                    yield {"mode": mode, "kind": kind, "alpha": alpha, "n_points": n_points, "model": m.describe(),
+                           "gen": "alpha-endpoint"}
+        mode, m = mk(2, False)
+        yield {"mode": mode, "kind": kind, "alpha": float(10 ** rng.uniform(-6, -1)), "alpha_form": "np.float64",
+               "n_points": 16, "model": m.describe(), "gen": "alpha-form"}
+        args = [float(rng.choice([1, 3, 6])), float(rng.choice([1, 20, 50, 100]))]
+        mode, m = mk(int(rng.choice([2, 3])), bool(rng.integers(0, 2)))
+        yield {"mode": mode, "kind": kind, "alpha": float(calculate_alpha(*args)), "alpha_form": "calculate_alpha",
+               "alpha_args": args, "n_points": 10, "model": m.describe(), "gen": "alpha-form"}
+        for n_dim in (2, 3, 3) + ((4, 4) if thorough else (4,)):
+            for table in ((False, True) if (n_dim < 4 or thorough) else (False,)):
+                mode, m = mk(n_dim, table)
+                yield {"mode": mode, "kind": kind, "alpha": float(10 ** rng.uniform(-8, math.log10(0.5))), "n_points": None,
+                       "model": m.describe(), "gen": "default-n_points"}
+
+
 def desc_of(case):
     if case["mode"] == "doubles":
         d = doubles.model_from_desc(case["model"])
         return d, None
     f = models.fam_model_from_desc(case["model"])
+    if case["model"].get("x"):
+        f = FamModelX(f.dims)
     return f, f
+
+
+def nonfinite_verdict(kind, desc, fam, alpha, n_points, impl):
+    """non-finite coordinates are only acceptable where the independently recomputed chain is non-finite in the
+    same row (a dependence function left the admissible range: outside the quantifier)"""
+    C = impl["coords"]
+    n_dim = desc.n_dim
+    if C.shape != (n_points, n_dim):
+        return [("n_points_rows", f"shape {C.shape} expected {(n_points, n_dim)}")]
+    unit, _ = unit_sphere(n_dim, n_points)
+    Phi = sts.norm.cdf(beta_of(kind, alpha, n_dim) * unit)
+    ref = reference_chain(desc, fam, Phi)
+    bad_rows = ~np.isfinite(C).all(axis=1)
+    ref_bad = ~np.isfinite(ref).all(axis=1)
+    only_impl = np.nonzero(bad_rows & ~ref_bad)[0]
+    if len(only_impl):
+        j = int(only_impl[0])
+        return [("coordinates_finite", f"{len(only_impl)} of {n_points} contour points are not finite although the chain "
+                 f"recomputed from the leaves is: point {j} coords={C[j].tolist()} expected {ref[j].tolist()}")]
+    return []
 
 
 def run_case(ck, case):
     desc, fam = desc_of(case)
     model = desc.build()
-    kind, alpha, n_points = case["kind"], case["alpha"], case["n_points"]
+    kind, alpha, n_points = case["kind"], alpha_object(case), n_points_of(case)
     try:
-        impl = run_impl(kind, model, alpha, n_points)
+        impl = run_impl(kind, model, alpha, case["n_points"])
     except Exception as e:  # noqa: BLE001
         return None, None, [("contour_computes", f"{type(e).__name__}: {e}")], 0, model
     if not np.all(np.isfinite(impl["coords"])):
-        return impl, None, "nonfinite", 0, model
+        bad = nonfinite_verdict(kind, desc, fam, alpha, n_points, impl)
+        return impl, None, (bad if bad else "nonfinite"), 0, model
     lines = model_lines(kind, desc, alpha, n_points, fam)
     ans = ck.driver.run(lines)
     mod = parse_model(ans[-1], n_points, desc.n_dim)
@@ -268,12 +556,32 @@ def process(ck, case):
     impl, mod, bad, n_hyp, model = run_case(ck, case)
     desc, fam = desc_of(case)
     if bad == "nonfinite":
-        ck.count("skipped_nonfinite_coordinates")
+        ck.count("nonfinite_coordinates_also_in_independent_chain")
         return
     ck.case(case, nontrivial=desc.n_dependent() >= 1, sample=case.get("gen") != "n_points-sweep")
     ck.count(f"mode={case['mode']}")
     ck.count(f"kind={case['kind']}")
     ck.count(f"n_dim={desc.n_dim}")
+    if case.get("gen"):
+        ck.count("gen=" + case["gen"])
+    if case["n_points"] is None:
+        ck.count(f"default_n_points_n_dim={desc.n_dim}")
+    if case.get("alpha_form"):
+        ck.count("alpha_form=" + case["alpha_form"])
+    if case["alpha"] in (1e-8, 0.5):
+        ck.count(f"alpha_endpoint={case['alpha']!r}")
+    if impl is not None and impl["beta"] == 0.0:
+        ck.count("beta_zero_sphere_degenerate")
+    if case["model"].get("x"):
+        for d in case["model"]["dims"]:
+            ck.count("xfamily=" + d["family"])
+            if d["family"] == "Weibull" and d["params"]["gamma"][0] == "dep":
+                ck.count("x_weibull_gamma_dependent")
+        if impl is not None and np.all(np.isfinite(impl["coords"])):
+            for ci in set(c for c in desc.cond if c is not None):
+                if (impl["coords"][:, ci] < 0).any():
+                    ck.count("x_negative_conditioning_value")
+                    break
     ck.hyp_checked += n_hyp
     for pred, detail in bad:
         ck.fail(sig(case["kind"], pred), case, detail)
@@ -291,14 +599,23 @@ def main(ck):
     rng = np.random.default_rng(ck.seed)
     thorough = ck.tier == "thorough"
     ck.rule = ("random hierarchical models (n_dim 2-4, every conditional_on[i] < i pattern, rational doubles and "
-               "shipped families with random dependence functions), alpha log-uniform in [1e-8, 0.5], n_points >= 3, "
+               "shipped families with random dependence functions: Weibull (incl. dependent location), LogNormal, ExpWeibull, "
+               "GenGamma, Normal, VonMises, LogNormalNormFit, ScipyDistribution subclasses gumbel_r / weibull_min; conditioning "
+               "variables with negative values), alpha log-uniform in [1e-8, 0.5] plus both endpoints, numpy-scalar alpha and "
+               "calculate_alpha output, n_points >= 3 and the public default (argument omitted) in 2-D/3-D/4-D, "
                "IFORM and ISORM; plus every admissible structure for n_dim 2..4 once; non-trivial = at least one "
                "dependent parameter in a conditional dimension; distinct by SHA1 of the case")
     ck.assumptions = ["norm.ppf/cdf, chi2.ppf, cos/sin and (table mode) family icdf enter the model as TABLE'd leaf values",
                       "NSphere unit points (n_dim >= 3) are an input of the model; their distinctness is observed, not proven"]
-    ck.partial = {"distinct NSphere directions for n_dim >= 3": "computed on each explored size, not proven",
-                  "inverse laws F(Q(p)) = p of scipy leaves": "hypothesis of rosenblatt_invRosenblatt; tested on every point used"}
+    ck.partial = {"distinct NSphere directions for n_dim >= 3": "computed on each explored size (incl. the public default n_points=180), not proven",
+                  "inverse laws F(Q(p)) = p of scipy leaves": "hypothesis of rosenblatt_invRosenblatt; tested on every point used",
+                  "Phi(Phi^-1(1-alpha)) = 1-alpha (scipy norm.cdf/ppf)": "hypothesis `hright` of iform_max_first_variable_is_marginal_quantile; observed: max first "
+                  "variable compared with distributions[0].icdf(1-alpha) on every 2-D IFORM case",
+                  "TransformedModel branch of IFORMContour._compute": "not reached by this check; C16 covers it",
+                  "non-finite coordinates": "accepted (counted, no further verdict) only when the independently recomputed chain is non-finite in the same rows"}
     for case in structure_cases(rng):
+        process(ck, case)
+    for case in special_cases(rng, thorough):
         process(ck, case)
     for case in npoints_sweep_cases(rng, 720 if thorough else 400):
         process(ck, case)
